@@ -506,7 +506,7 @@ func keptStats(i int, rng *rand.Rand) {
 	bad := func(fam, msg string) {
 		run.Violation("C14/modified-rule-lost-statistics:"+fam, fmt.Sprintf("[%s, %s path] %s", fam, path, msg), map[string]interface{}{"family": fam, "path": path, "case": i})
 	}
-	switch i % 3 {
+	switch i % 4 {
 	case 0: // flow reject rule with a standalone 3000 ms window: threshold 5 -> 8 after k admissions
 		k := 1 + rng.Intn(5)
 		mk := func(t float64) []*flow.Rule {
@@ -559,6 +559,40 @@ func keptStats(i int, rng *rand.Rand) {
 			bad("breaker-error-count", fmt.Sprintf("threshold raised 3->5 (same statistic parameters) with 2 errors recorded: opened after %d further errors, expected 3", n))
 		}
 		cb.ClearRules()
+	case 3: // three hot-parameter rules with the same statistic parameters (one per argument), the first unchanged, the
+		// other two modified in place: each keeps the counters of ITS argument
+		mk := func(t int64) []*hotspot.Rule {
+			r := func(id string, idx int, thr int64) *hotspot.Rule {
+				return &hotspot.Rule{ID: id, Resource: R, MetricType: hotspot.QPS, ControlBehavior: hotspot.Reject, ParamIndex: idx, Threshold: thr, DurationInSec: 1}
+			}
+			return []*hotspot.Rule{r("u", 0, 2), r("m1", 1, t), r("m2", 2, t)}
+		}
+		hotspot.LoadRules(mk(2))
+		for j := 0; j < 2; j++ {
+			if e, b := sentinel.Entry(R, sentinel.WithArgs(fmt.Sprint("a", j), "hot", fmt.Sprint("c", j))); b == nil {
+				e.Exit()
+			}
+		}
+		if path == "whole-set" {
+			hotspot.LoadRules(mk(3))
+		} else {
+			hotspot.LoadRulesOfResource(R, mk(3))
+		}
+		n := 0
+		for n < 10 {
+			e, b := sentinel.Entry(R, sentinel.WithArgs(fmt.Sprint("x", n), "hot", fmt.Sprint("y", n)))
+			if b != nil {
+				break
+			}
+			e.Exit()
+			n++
+		}
+		// (the statistic of a QPS rule is the bucket of REMAINING tokens: value "hot" has none left, and a kept bucket
+		// stays empty until its refill time whatever the new threshold says)
+		if n != 0 {
+			bad("hotspot-three-rules-one-per-argument", fmt.Sprintf("thresholds of the rules on arguments 1 and 2 raised 2->3 (same statistic parameters) after value \"hot\" of argument 1 had used up its bucket: %d further admissions for it within the same duration, expected none (the rule on argument 1 keeps its buckets)", n))
+		}
+		hotspot.ClearRules()
 	default: // hotspot concurrency 2 -> 3 with 2 live entries for the value
 		mk := func(t int64) []*hotspot.Rule {
 			return []*hotspot.Rule{{ID: "m", Resource: R, MetricType: hotspot.Concurrency, ParamIndex: 0, Threshold: t}}
